@@ -13,35 +13,35 @@ EXTENDS Scenarios, Json
 
 CONSTANTS MaxDepth, MaxItems, Export
 
-VARIABLES phase, tree, depth, plant, sec, fam
+VARIABLES phase, tree, depth, plant, sec, fam, xr      \* xr: $refs added by the carriers themselves
 
-vars == <<phase, tree, depth, plant, sec, fam>>
+vars == <<phase, tree, depth, plant, sec, fam, xr>>
 
 Init ==
-  \/ /\ phase = "schema" /\ fam = "schema" /\ plant \in SchemaPlants /\ tree = PlantSchema(plant) /\ depth = 0 /\ sec = <<"-", "none">>
-  \/ /\ phase = "simple" /\ fam = "simple" /\ plant \in SimplePlants \cup {"itemsref", "itemsrefall"} /\ tree = Empty /\ depth = 0 /\ sec = <<"-", "none">>
-  \/ /\ phase = "holder" /\ fam = "holder" /\ plant = "ref" /\ tree = Empty /\ depth = 0 /\ sec = <<"-", "none">>
+  \/ /\ phase = "schema" /\ fam = "schema" /\ plant \in SchemaPlants /\ tree = PlantSchema(plant) /\ depth = 0 /\ sec = <<"-", "none">> /\ xr = 0
+  \/ /\ phase = "simple" /\ fam = "simple" /\ plant \in SimplePlants \cup {"itemsref", "itemsrefall"} /\ tree = Empty /\ depth = 0 /\ sec = <<"-", "none">> /\ xr = 0
+  \/ /\ phase = "holder" /\ fam = "holder" /\ plant = "ref" /\ tree = Empty /\ depth = 0 /\ sec = <<"-", "none">> /\ xr = 0
 
 WrapStep(k) ==
   /\ phase = "schema" /\ depth < MaxDepth
-  /\ tree' = Wrap(k, tree) /\ depth' = depth + 1
+  /\ tree' = Wrap(k, tree) /\ depth' = depth + 1 /\ xr' = IF k \in RefCarriers THEN xr + 1 ELSE xr
   /\ UNCHANGED <<phase, plant, sec, fam>>
 
 PlaceSchemaStep(s) ==
   /\ phase = "schema"
   /\ phase' = "doc" /\ tree' = PlaceSchema(s, tree) /\ sec' = s
-  /\ UNCHANGED <<depth, plant, fam>>
+  /\ UNCHANGED <<depth, plant, fam, xr>>
 
 PlaceSimpleStep(s, d) ==
   /\ phase = "simple"
   /\ plant \in {"itemsref", "itemsrefall"} => d > 0
   /\ phase' = "doc" /\ tree' = PlaceSimple(s, d, plant) /\ sec' = s /\ depth' = d
-  /\ UNCHANGED <<plant, fam>>
+  /\ UNCHANGED <<plant, fam, xr>>
 
 PlaceHolderStep(s) ==
   /\ phase = "holder"
   /\ phase' = "doc" /\ tree' = PlaceHolder(s) /\ sec' = s
-  /\ UNCHANGED <<depth, plant, fam>>
+  /\ UNCHANGED <<depth, plant, fam, xr>>
 
 Next ==
   \/ \E k \in Carriers : WrapStep(k)
@@ -61,14 +61,14 @@ PlantFound ==
         pats  == UNION { PatternsOf(tree, TD, t) : t \in {"param", "header", "items", "schema"} }
         ens   == UNION { EnumsOf(tree, TD, t) : t \in {"param", "header", "items", "schema"} }
     IN
-    CASE fam = "schema" /\ plant = "ref"     -> Cardinality(refsS) = 1 /\ pats = {} /\ ens = {}
-      [] fam = "schema" /\ plant = "pattern" -> Cardinality(PatternsOf(tree, TD, "schema")) = 1 /\ refsS = {} /\ ens = {}
-      [] fam = "schema" /\ plant = "enum"    -> Cardinality(EnumsOf(tree, TD, "schema")) = 1 /\ refsS = {} /\ pats = {}
+    CASE fam = "schema" /\ plant = "ref"     -> Cardinality(refsS) = 1 + xr /\ pats = {} /\ ens = {}
+      [] fam = "schema" /\ plant = "pattern" -> Cardinality(PatternsOf(tree, TD, "schema")) = 1 /\ Cardinality(refsS) = xr /\ ens = {}
+      [] fam = "schema" /\ plant = "enum"    -> Cardinality(EnumsOf(tree, TD, "schema")) = 1 /\ Cardinality(refsS) = xr /\ pats = {}
       [] plant = "itemsref" -> Cardinality(HoldersOfKind(tree, TD, "items")) = 1 /\ Cardinality(AllHolders(tree, TD)) = 1
       [] plant = "itemsrefall" -> Cardinality(HoldersOfKind(tree, TD, "items")) = depth /\ Cardinality(AllHolders(tree, TD)) = depth
       [] fam = "simple" /\ plant \in SimplePlants ->
            LET owner == IF depth > 0 THEN "items"
-                        ELSE IF sec[2] \in {"sharedParam", "pathParam", "opParam"}
+                        ELSE IF sec[2] \in {"sharedParam", "pathParam", "opParam", "sharedBodyParam", "pathBodyParam", "opBodyParam"}
                              THEN "param" ELSE "header"
            IN /\ (plant \in {"pattern", "both"}) = (Cardinality(PatternsOf(tree, TD, owner)) = 1)
               /\ (plant \in {"enum", "both"}) = (Cardinality(EnumsOf(tree, TD, owner)) = 1)
